@@ -255,6 +255,19 @@ impl<B: Borrow<Block>> BlockCursor<B> {
     }
 }
 
+/// Verification-only, compiled only with `--cfg grenad_verif`.
+#[cfg(grenad_verif)]
+impl<B: Borrow<Block>> BlockCursor<B> {
+    /// Read-only: (FNV-1a hash of the loaded block bytes, in-block position).
+    pub fn verif_state(&self) -> (u64, Option<usize>) {
+        let mut hash: u64 = 0xcbf29ce484222325;
+        for byte in self.block.borrow().buffer.iter() {
+            hash = (hash ^ *byte as u64).wrapping_mul(0x100000001b3);
+        }
+        (hash, self.current_offset)
+    }
+}
+
 #[cfg(test)]
 mod tests {
     use super::*;
